@@ -13,10 +13,10 @@ import (
 	"github.com/yorkie-team/yorkie/pkg/document/change"
 	"github.com/yorkie-team/yorkie/pkg/document/crdt"
 	"github.com/yorkie-team/yorkie/pkg/document/json"
-	"github.com/yorkie-team/yorkie/pkg/key"
 	"github.com/yorkie-team/yorkie/pkg/document/operations"
 	"github.com/yorkie-team/yorkie/pkg/document/presence"
 	"github.com/yorkie-team/yorkie/pkg/document/time"
+	"github.com/yorkie-team/yorkie/pkg/key"
 
 	"verifharness/kit"
 	"verifharness/prog"
@@ -353,8 +353,8 @@ type env struct {
 	// peerOff: C14a exclusion — once an undo/redo restored a non-empty Text
 	// through Object.Set the peer is no longer fed or compared.
 	peerOff bool
-	hist       []string
-	ev         map[string]int
+	hist    []string
+	ev      map[string]int
 	// skip != "" : the starting state could not be built (a failure of some
 	// other property, or of the harness) and the case is not evaluated.
 	skip string
@@ -429,7 +429,7 @@ func buildEnv(c Case) *env {
 		e.skip = "harness: test replica still has local changes after the final round"
 		return e
 	}
-	if a, b := e.test.Marshal(), e.peer.Marshal(); a != b {
+	if a, b := e.test.Marshal(), e.peer.Marshal(); normalise(e.test) != normalise(e.peer) {
 		e.skip = "setup diverged"
 		logf("setup diverged:\n test %s\n peer %s", a, b)
 		return e
@@ -474,8 +474,10 @@ func (e *env) forward(peerGC bool) *kit.Failure {
 	if err != nil {
 		return kit.Failf("SYNC-APPLY", "peer fails to apply the replica's changes: %v", err)
 	}
-	if a, b := e.test.Marshal(), e.peer.Marshal(); a != b {
-		return kit.Failf("SYNC-DIVERGED", "after applying the replica's changes the peer differs:\n replica %s\n peer    %s", a, b)
+	// compared as normalised content: the chunking of text into nodes may
+	// legitimately differ (a peer recreates a restored run as one node)
+	if normalise(e.test) != normalise(e.peer) {
+		return kit.Failf("SYNC-DIVERGED", "after applying the replica's changes the peer differs:\n replica %s\n peer    %s", e.test.Marshal(), e.peer.Marshal())
 	}
 	return nil
 }
